@@ -39,6 +39,16 @@ CHECKS.update({
  "C09": ("vabi09", "model_checking", "exhaustive enumeration of a generated interface family (argument kinds x return kinds x values x buffer-straddling sizes x panic payloads x future schedules); direct-call log compared with ABI-call log",
          "Every method of the generated family is driven directly and through an AbiConnection for every enumerated state; observed arguments, callbacks, returned values, drop traces (exactly once), panic propagation and connection reuse must agree.", "§5 C09"),
 })
+CHECKS.update({
+ "C06": ("vseq", "fault_enumeration", "complete enumeration of stated mutation sets of valid encodings (every byte x replacement values, every length field x boundary lengths, every tag x all values, every truncation) and of all byte strings of length <= 2, in crash-isolated child processes",
+         "Every mutated input is loaded through bare_deserialize / load_noschema / load and through the bulk containers; outcome must be Ok or Err, no panic except allocation failures on absurd declared lengths, loaded values are inspected through raw memory for invalid bool/char/enum tags and for collections larger than the input could encode.", "§5 C06"),
+ "C10": ("vabi10", "model_checking", "breadth-first history tree of ABI-usable edits; all ordered (caller version, implementation version) pairs x methods x values on the real AbiConnection against a down/up reference model",
+         "For every ordered pair of definitions on a history path: negotiated version == min, the implementation observes up_j(down_min(x)), the caller receives up_i(down_min(r)), missing methods panic at call time, breaking signatures are refused at connect.", "§5 C10"),
+ "C11": ("vabi10", "model_checking", "exhaustive enumeration of all ordered pairs of a generated POD definition family and of all single layout mutations; measured layouts vs layout_compatible; in-process calls; randomized-layout nightly plugins (thorough)",
+         "layout_compatible == true must imply identical measured layouts (size, align, offsets, memory tags) and identical observed values; every single layout mutation must be detected; by-reference passing in real calls must only be chosen for identical layouts.", "§5 C11"),
+ "C17": ("vintro", "model_checking", "exhaustive walk of every introspection node of every enumerated value, and breadth-first search over Introspector command sequences (depth 3 quick / 5 thorough)",
+         "introspect_len must equal the number of consecutive children and nothing beyond; no navigator command sequence may panic; total_index(i) is defined exactly below total_len.", "§5 C17"),
+})
 TODO = {}
 props = [json.loads(l)["id"] for l in open("/verif/properties.jsonl")]
 checks = []
@@ -71,6 +81,8 @@ m = {
  "engines": [
    {"name": "vseq", "path": "engine/seq", "serves_properties": [p for p in props if p in CHECKS and CHECKS[p][0]=="vseq"], "kind_free_text": "sequential explicit-state / fault enumeration on the real code against the reference model; child-process isolation with crash attribution"},
    {"name": "vabi09", "path": "engine/abi_call", "serves_properties": ["C09"], "kind_free_text": "generated interface family, direct vs ABI call log comparison, child-process workers"},
+   {"name": "vabi10", "path": "engine/abi_ver", "serves_properties": ["C10", "C11"], "kind_free_text": "generated history/POD families, cross-version connections, measured layouts, nightly randomized-layout plugins"},
+   {"name": "vintro", "path": "engine/intro", "serves_properties": ["C17"], "kind_free_text": "introspection tree walk + navigator BFS"},
    {"name": "vschema", "path": "engine/schema13", "serves_properties": ["C13"], "kind_free_text": "schema tree enumeration against the independent schema codec"},
    {"name": "vabi15", "path": "engine/abi_ledger", "serves_properties": ["C15"], "kind_free_text": "BFS over ledger run sequences"},
    {"name": "vconc", "path": "engine/conc", "serves_properties": ["C16"], "kind_free_text": "shuttle-based preemption-bounded schedule enumeration of the real savefile-abi lock operations"},
